@@ -14,13 +14,6 @@ SPANNER_KINDS = ("S", "S2", "SL", "SL2")
 LIBS = ["-ltbb", "-lboost_timer"]
 
 
-def recover_scan(es, ret, drop):
-    """weight-sorted merge of the retained and dropped sequences, retained first on ties"""
-    out, i, j = [], 0, 0
-    while i < len(ret) or j < len(drop):
-        if j >= len(drop) or (i < len(ret) and es[ret[i]][2] <= es[drop[j]][2]): out.append(ret[i]); i += 1
-        else: out.append(drop[j]); j += 1
-    return out
 
 
 def hopdist(n, edges, s, t):
